@@ -6,6 +6,7 @@ colliding ids and injects each rejection there (duplicate id by the same / anoth
 strict lookup, out-of-bounds placement on each axis and side), comparing a full observable snapshot
 before and after."""
 import copy
+import itertools
 import pickle
 
 from ECAgent.Core import Agent, AgentNotFoundError, Component, DuplicateAgentError, Environment, Model
@@ -29,7 +30,7 @@ COMPONENTS = {"real": ["ECAgent.Core.Environment add_agent / remove_agent / get_
                        "SpaceWorld / DiscreteWorld / GridWorld / LineWorld add_agent / remove_agent",
                        "SystemManager component pools (observed)"],
               "stub": ["agents and component classes are harness-defined"]}
-PROBES = ["dup_same_object", "dup_other_object", "unknown_remove", "unknown_strict_lookup", "oob_x_lo", "oob_x_hi",
+PROBES = ["overlapping_or_unfinished_iterations", "dup_same_object", "dup_other_object", "unknown_remove", "unknown_strict_lookup", "oob_x_lo", "oob_x_hi",
           "oob_y_lo", "oob_y_hi", "oob_z_lo", "oob_z_hi", "oob_far", "reject_on_empty_environment", "remove_from_middle",
           "readd_after_remove", "plain_env", "spatial_env", "model_lifecycle_op", "caller_scrambles_listing", "oob_fractional_in_grid", "environment_without_model",
           "agent_is_an_environment", "nested_population_changed_while_resident", "ops_from_inside_a_timestep", "deprecated_camelcase_spelling", "agent_constructed_for_another_model",
@@ -128,7 +129,7 @@ def generate(rng, tier):
         j_ = rng.randint(i_ + 1, len(ops))
         ops.insert(j_, {"op": "leave_step"})
         ops.insert(i_, {"op": "enter_step"})
-    return {"world": world, "pool": pool, "ops": ops}
+    return {"world": world, "pool": pool, "ops": ops, "walks": rng.random() < 0.3}
 
 
 def execute(sc, ctx):
@@ -198,8 +199,31 @@ def execute(sc, ctx):
                 "nested": [(id(a), [x.id for x in a.agents.values()]) for a in objs if isinstance(a, Environment)],
                 "pools": pools()}
 
+    held = []          # an iteration of the environment begun earlier and never finished (the caller broke out of a loop)
+
     def check_agreement(where):
         want = [objs[k] for k in residents.values()]
+        if sc.get("walks"):
+            # every iteration of an environment is a walk of its own: unfinished walks, overlapping walks and walks begun
+            # before other reads do not disturb each other
+            ctx.probe("overlapping_or_unfinished_iterations")
+            cap = len(want) * len(want) + 2
+            first = next(iter(env), None)                        # a search loop that left early
+            ctx.check(first is (want[0] if want else None), "iteration", f"{where}: first of a fresh walk")
+            pending = iter(env)
+            head = list(itertools.islice(pending, 1))
+            held[:] = [iter(env)]
+            next(held[0], None)
+            pairs = list(itertools.islice(((a.id, b.id) for a in env for b in env), cap))
+            ctx.check(pairs == [(a.id, b.id) for a in want for b in want], "iteration",
+                      lambda: f"{where}: nested walks of the same environment gave {pairs[:6]}... ({len(pairs)} pairs) expected "
+                              f"{len(want) ** 2} pairs of {[a.id for a in want]}")
+            z = list(itertools.islice(zip(env, env), cap))
+            ctx.check(len(z) == len(want) and all(x is y for x, y in z), "iteration", lambda: f"{where}: zip(env, env) gave {[(x.id, y.id) for x, y in z]}")
+            mid = list(env)
+            rest = head + list(itertools.islice(pending, cap))
+            ctx.check(len(rest) == len(want) and all(x is y for x, y in zip(rest, want)) and len(mid) == len(want), "iteration",
+                      lambda: f"{where}: a walk begun before another full walk yielded {[a.id for a in rest]} expected {[a.id for a in want]}")
         it = list(env)
         ctx.check(len(env) == len(want), "length", f"{where}: len {len(env)} expected {len(want)}")
         ctx.check(len(it) == len(want) and all(x is y for x, y in zip(it, want)), "iteration",
